@@ -40,8 +40,9 @@ impl Prop for C06Prop {
     }
 
     fn directed(&self, _tier: Tier) -> Vec<Scenario> {
-        // every TLF site of two small base files x every inflation value
-        let mut v = Vec::new();
+        // the shared enumeration (every truncation / single-bit flip of the base set, declared counts
+        // beyond the entries present), then every TLF site of two small base files x every inflation value
+        let mut v = super::c04::enum_corpus("C06", _tier, 1);
         for s in 0..2u64 {
             let mut rng = Rng::new(0xC06_0000 + s);
             let (_, _, msgs) = smlgen::gen_valid(&mut rng, 2);
